@@ -51,6 +51,11 @@
    (Section SSearch, [cached_win_worker]); [program_pure] keeps every text file on the pure block-wise reader; (3) the year
    walk of a year-less file stops early at --dt-after ([walk_until], finding F17).
 
+   FOURTH STAGE.  A text source of kind [KTextRows dbr rows] carries no timestamp oracle of its own: stage 1 is
+   the complete per-row block-zero analysis Model/Gate.gate_rows over the per-row function [dbr] (instantiated in
+   Proofs/ProgramRegex.v with work package B's regex model of bytes_to_regex_to_datetime), the row it names dates
+   every line of stages 2 + 3; the specification uses the bs-free decision Model/GateSpec.spec_accept.
+
    Out of the composed model (each is a hypothesis of program_correct or named in the check):
    the container formats of event logs and journals, the caches of a year-less file (pure reader there), I/O errors, a print error (EPIPE), SIGINT. *)
 From Coq Require Import List NArith ZArith Bool Arith.
@@ -59,7 +64,7 @@ From S4.Base Require Bytes Chunk.
 From S4.Spec Require LinesSpec WindowSpec.
 From Coq Require Sorted.
 From S4.Spec Require RecordsSpec JournalSpec.
-From S4.Model Require Lines Syslines Search Merge Coord Strftime Print Summary Gate Caches.
+From S4.Model Require Lines Syslines Search Merge Coord Strftime Print Summary Gate GateSpec Caches.
 From S4.Model Require Calendar Year Records RecordRender LayoutDetect Evtx Journal JournalRender.
 From S4.Gen Require FixedStructTables JournalTables.
 
@@ -512,6 +517,12 @@ Section Oracles.
     | _ => ([], GOk)
     end.
 
+  (* stages 2 + 3 alone (stage 1 decided elsewhere: a file read through the per-row analysis, KTextRows) *)
+  Definition text_run (bs : N) (a b : option Z) (streamed : bool) (f : Chunk.file)
+    : list (Print.msg * bool) * gstatus :=
+    let '(out, st) := g_text_out r_sl (reader_find bs f) (Chunk.lenN f) streamed a b in
+    (map (fun mb => (pmsg_of bs f (r_sys (fst mb)), snd mb)) out, st).
+
   (* ============================================================== the same worker over the CACHED reader *)
 
   (* Model/Caches.v (work package A) is the reader AS THE CODE RUNS IT: BlockReader (which blocks are read,
@@ -591,6 +602,20 @@ Section Oracles.
     : list (Print.msg * bool) * gstatus :=
     if cached_case a b streamed then cached_text_worker bs rp a b streamed f
     else cached_win_worker bs rp a b f.
+
+  (* stages 2 + 3 over the cached machine, stage 1's verdict taken elsewhere (KTextRows) *)
+  Definition text_run_c (bs : N) (rp : rparams) (a b : option Z) (streamed : bool) (f : Chunk.file)
+    : list (Print.msg * bool) * gstatus :=
+    if cached_case a b streamed then
+      match snd (cached_driver bs rp a b streamed f) with
+      | Lines.Found l => (map (cmsg_of bs f) l, GOk)
+      | Lines.Done => ([], GFaulted 4)
+      | Lines.OutOfFuel => ([], GNoFuel)
+      | Lines.Panic => ([], GPanicked 40)
+      end
+    else
+      let '(out, st) := snd (cached_win_driver bs rp a b f) in
+      (map (fun mb : Caches.ssl * bool => (pmsg_of bs f (Caches.ss_sysline (fst mb)), snd mb)) out, st).
 
   (* oracle hypothesis of block-zero analysis on the cached reader (Props/C02.v gate_then_refines): the
      partial line find_line_in_block hands to the parser is the first byte of a line (finding F3a); it
@@ -723,7 +748,12 @@ Inductive pkind : Type :=
                                                     the layout the file was written in (ground truth of the spec) *)
 | KEvtxFile (recs : list (option (Z * Bytes.bytes)))   (* event log: per enumerated record its creation instant (ns)
                                                     and rendered text; None = a record the parser could not decode *)
-| KJournalFile (j : Journal.journal).            (* journal: entries in libsystemd's enumeration order *)
+| KJournalFile (j : Journal.journal)             (* journal: entries in libsystemd's enumeration order *)
+| KTextRows (dbr : N -> list N -> option Z) (rows : list N).
+                                                 (* text log read through the PER-ROW analysis (fourth stage): [dbr r l] = the
+                                                    instant pattern row r gives line l; stage 1 is the complete block-zero
+                                                    analysis Model/Gate.gate_rows over all rows, which names the row the file
+                                                    is parsed with; stages 2 + 3 date every line with that row alone *)
 
 Record pfile := mkPfile {
   pf_src : Summary.source;      (* the string that -n / -p prepends *)
@@ -936,6 +966,11 @@ Section Kinds.
     | KRecords hint _ => records_worker a b hint (pf_data pf)
     | KEvtxFile recs => evtx_worker a b recs
     | KJournalFile j => journal_worker o j
+    | KTextRows dbr rows =>
+        match GateSpec.accepted (Gate.gate_rows dbr rows bs (pf_data pf)) with
+        | Some r => text_run (dbr r) dtspan bs a b (pf_streamed pf) (pf_data pf)
+        | None => ([], GOk)
+        end
     end.
 
   Definition spec_out (o : options) (pf : pfile) : list (Print.msg * bool) :=
@@ -950,6 +985,11 @@ Section Kinds.
     | KRecords _ lname => records_spec a b lname (pf_data pf)
     | KEvtxFile recs => evtx_spec a b recs
     | KJournalFile j => journal_spec o j
+    | KTextRows dbr rows =>           (* the bs-free decision of Model/GateSpec.v: the first row, in table order, that dates the first dated line *)
+        match GateSpec.spec_accept dbr rows (pf_data pf) with
+        | Some r => text_spec (dbr r) dtspan a b (pf_data pf)
+        | None => []
+        end
     end.
 
   (* ============================================================== the composed code-level model *)
@@ -959,6 +999,11 @@ Section Kinds.
   Definition worker_out (bs : N) (rp : rparams) (o : options) (pf : pfile) : list (Print.msg * bool) * gstatus :=
     match pf_kind pf with
     | KText => text_worker_c dated dtspan bs rp (op_after o) (op_before o) (pf_streamed pf) (pf_data pf)
+    | KTextRows dbr rows =>
+        match GateSpec.accepted (Gate.gate_rows dbr rows bs (pf_data pf)) with
+        | Some r => text_run_c (dbr r) dtspan bs rp (op_after o) (op_before o) (pf_streamed pf) (pf_data pf)
+        | None => ([], GOk)
+        end
     | _ => worker_pure bs o pf
     end.
 
@@ -1078,6 +1123,10 @@ Section Kinds.
         (* every rendering of an in-window entry ends with a newline (print_journalentry_* precondition) *)
         Forall (fun e => nl_terminated (JournalRender.entry_bytes
                             (JournalRender.next_entry JournalTables.src_cfg (op_jenv o) (op_jout o) e))) j
+    | KTextRows dbr rows =>
+        (* the decision names a row, and under THAT row the file is a text file in the sense of KText *)
+        exists r, GateSpec.spec_accept dbr rows (pf_data pf) = Some r /\
+                  file_ok (dbr r) (pf_data pf) /\ first_byte_ok (dbr r) (pf_data pf)
     end.
 
   Definition domain (o : options) (files : list pfile) : Prop :=
@@ -1091,6 +1140,9 @@ Section Kinds.
                       | KYearless off mtime =>      (* stage 1 sees the lines as the stopped walk leaves them dated *)
                           forall tab, yl_table_es (op_after o) off mtime (pf_data pf) = Some tab ->
                                       Gate.gate (yl_dated tab) bs (pf_data pf) = Gate.FileOk
+                      | KTextRows dbr rows =>       (* the complete analysis at this block size decides as the bs-free decision
+                                                       (C12 gate_accept_spec: outside the classes F3a-d) *)
+                          GateSpec.accepted (Gate.gate_rows dbr rows bs (pf_data pf)) = GateSpec.spec_accept dbr rows (pf_data pf)
                       | _ => True
                       end) files.
 End Kinds.
